@@ -1,9 +1,13 @@
 (* C15 -- no crash on well-formed commands: what is PROVED is the command layer of the model (Uci.v):
    the only line that can make `step` panic is `position` with a FEN the parser rejects (outside the property:
-   well-formed scripts carry valid FENs).  PARTIAL by nature: arithmetic traps inside the search and the move
-   generator, stack depth, memory and OS behaviour are covered by running both binaries on generated scripts. *)
+   well-formed scripts carry valid FENs); and the SEARCH of the model never gets stuck: on every position satisfying the invariant,
+   with any table that has at least one slot, `root`, `negamax` and `qsearch` return for every limit (explicit recursion-depth bounds,
+   SearchTotal.v / FuelFacts.v) -- the only way to `None` left in the model is a zero-length table (division by zero in the slot
+   index: the setoption handlers clamp the size to >= 1 MB).  PARTIAL by nature: arithmetic traps inside the Rust code, the real
+   stack depth (the bound is a recursion depth of the model, tens of thousands in the worst case of mutual checks), memory and OS
+   behaviour are covered by running both binaries on generated scripts. *)
 From Coq Require Import NArith ZArith List Bool String.
-From Rawr Require Import Consts Bits Magic Position MoveGen MakeMove Fen Eval TT Search Uci UciFacts.
+From Rawr Require Import Consts Bits Magic Position MoveGen MakeMove Fen Eval TT Search Uci UciFacts MakeStages Closure MenCount EpRetro SearchTotal FuelFacts.
 Import ListNotations.
 Local Open Scope N_scope.
 
@@ -21,5 +25,19 @@ Theorem C15_position_panics_iff_fen_rejected : forall mode toks p,
           end)) = None.
 Proof. exact position_panics_iff_fen_rejected. Qed.
 
+(* the search does not get stuck: termination with explicit bounds (any stop predicate, window, ply, depth, history) *)
+Theorem C15_root_search_returns : forall (stopf : Stats -> bool) p hist tt fuel,
+  InvSR p -> t_len tt <> 0%N -> (0 <= halfmoves p)%Z -> (61442 <= Z.of_nat fuel)%Z -> root stopf fuel p hist tt <> None.
+Proof. exact root_total_const. Qed.
+Theorem C15_node_search_returns : forall (stopf : Stats -> bool) p s alpha beta ply depth cn fuel,
+  InvSR p -> t_len (ss_tt s) <> 0%N -> (0 <= halfmoves p)%Z -> (101 * Z.max depth 0 + 48615 <= Z.of_nat fuel)%Z ->
+  negamax stopf fuel p s alpha beta ply depth cn <> None.
+Proof. exact negamax_total_const. Qed.
+Theorem C15_quiescence_returns : forall p st a b ply fuel, Inv16R p -> (32 < fuel)%nat -> qsearch fuel p st a b ply <> None.
+Proof. exact qsearch_total_33. Qed.
+
 Print Assumptions C15_step_no_panic_unless_position.
 Print Assumptions C15_position_panics_iff_fen_rejected.
+Print Assumptions C15_root_search_returns.
+Print Assumptions C15_node_search_returns.
+Print Assumptions C15_quiescence_returns.
